@@ -4,7 +4,7 @@ RULE = ("controlled schedules (real threads, one runnable at a time, yield at ev
         "flag wait, inside the critical section and at every round boundary) of 2-4 contenders (coroutines / blocking threads), 1-3 rounds "
         "each, acquisition by co_await lock() / lock().wait() / try_lock(), release by ownership destruction / release() discarded / "
         "co_await release(); random, bursty, highest-first and sparse-preemption schedules, plus a malformed-declaration stream; thorough adds "
-        "every schedule prefix of length 11 (2 contenders x 2 rounds) / 8 (3 x 1) and all pairs of single-step preemptions; "
+        "every schedule prefix of length 13 (2 contenders x 2 rounds) / 9 (3 x 1) and all pairs of single-step preemptions; "
         "non-trivial = at least 3 OS-thread switches in the executed trace; distinct = distinct (contenders, schedule)")
 SCOPE = ("mutex::ready/subscribe/build_queue/unlock/try_lock/lock, mutex::ownership (deleter, release), co_awaiter<mutex> "
          "await_ready/await_suspend/await_resume/sync/wait, sync_awaiter, coro_queue resume/flush_queue/install_queue_and_call, "
